@@ -44,12 +44,13 @@ SEPS = [" ", "  ", "\t", "\n", "\r\n", " /**/ ", " //x\n", " \\\n", " \\ \t\n "]
 
 def norm_real(r):
     toks = []
-    for name, text, a, b in r["toks"]:
+    for tk in r["toks"]:
+        name, text, a, b = tk[:4]
         s, n = "", 0
         if name in ("T_ID", "T_TYPENAME", "T_FLOATING", "T_CHARARR"):
             s = text
         if name == "T_NAT":
-            n = int(text)
+            n = tk[4]                 # the semantic value the scanner computed (utap_lval.number)
         toks.append({"t": name, "s": s, "n": n, "a": a, "b": b})
     return {"toks": toks, "errs": list(r["errs"]), "expect": list(r["expect"]), "lines": r["lines"], "cond": "INITIAL" if r["after"] == 2 else "other"}
 
@@ -117,6 +118,17 @@ def run(c, quick, prop, only=None):
                 drift += 1
                 if drift <= 3:
                     print("DRIFT Lex.tla and the real scanner disagree on %s (%s): spec %s, real %s" % (json.dumps(txt), name, json.dumps(want)[:300], json.dumps(got)[:300]))
+            # literals: the value handed to the parser is the decimal value of the lexeme / the nearest double (python's float() as the oracle)
+            for tk in rr["toks"]:
+                if tk[0] == "T_NAT" and tk[4] != int(tk[1]):
+                    c.finding("%s:scanner:literal-value:nat" % prop.lower(), "the scanner hands the parser the value %d for the integer literal `%s` in %s" % (tk[4], tk[1], json.dumps(txt)),
+                              {"entry": "scan_run", "universe": name, "text": txt, "syntax": params["syntax"]})
+                if tk[0] == "T_FLOATING":
+                    import struct
+                    want_bits = struct.unpack("<Q", struct.pack("<d", float(tk[1])))[0]
+                    if int(tk[4]) != want_bits:
+                        c.finding("%s:scanner:literal-value:float" % prop.lower(), "the scanner hands the parser the double with bits %s for the floating literal `%s` (nearest double: %d) in %s" % (tk[4], tk[1], want_bits, json.dumps(txt)),
+                                  {"entry": "scan_run", "universe": name, "text": txt, "syntax": params["syntax"]})
             # the relations on the real token strings
             if ref_real is not None:
                 body = txt[len("".join(PRE)) + 2: len(txt) - len("".join(POST)) - (2 if params["mode"] == "comment" else 1)]
